@@ -5,7 +5,7 @@ CONSTANTS
   B = 1
   MaxFail = 99
   MaxCancel = 99
-  Defects = {"LateSubmit"}
+  Defects = {}
   RankOf <- Ranks
 CHECK_DEADLOCK FALSE
 INVARIANTS AtMostOnce PerCallerFIFO OnlyAccepted Conservation BatchBound
